@@ -1,3 +1,4 @@
+mod c11;
 mod drive;
 mod front;
 mod front2;
@@ -35,6 +36,7 @@ fn main() {
                 "C16" => front::check_c16(tier),
                 "C10" => front2::check_c10(tier),
                 "C12" => front2::check_c12(tier),
+                "C11" => c11::check(tier),
                 p @ ("C01" | "C02" | "C03" | "C04" | "C05" | "C06" | "C15" | "C17" | "C18") => rustgen::check(p, tier),
                 _ => usage(),
             };
